@@ -3,6 +3,7 @@ module verifharness
 go 1.22.0
 
 require (
+	github.com/negasus/haproxy-spoe-go v1.0.5
 	github.com/rs/zerolog v1.31.0
 	go.opentelemetry.io/otel/metric v1.21.0
 	lunar/aggregation-plugin v0.0.0
@@ -40,7 +41,6 @@ require (
 	github.com/mattn/go-colorable v0.1.13 // indirect
 	github.com/mattn/go-isatty v0.0.20 // indirect
 	github.com/matttproud/golang_protobuf_extensions/v2 v2.0.0 // indirect
-	github.com/negasus/haproxy-spoe-go v1.0.5 // indirect
 	github.com/ohler55/ojg v1.26.1 // indirect
 	github.com/pkg/errors v0.9.1 // indirect
 	github.com/pkoukk/tiktoken-go v0.1.7 // indirect
